@@ -182,6 +182,29 @@ def plain(c):
     return {k: plain(x) for k, x in c[1]}
 
 
+class _Pairs(list):
+    pass
+
+
+def _undup(v):
+    if isinstance(v, _Pairs):
+        return {k: _undup(x) for k, x in v}
+    if isinstance(v, list):
+        return [_undup(x) for x in v]
+    return v
+
+
+def flat_sx(text):
+    """A standalone configuration document for the model: the members of a top-level object in text
+    order, repetitions kept (serde's derived reader of GenerateConfig sees every member and refuses a field
+    given twice, whereas serde_json::Value keeps the last); anything else as a value. Only called on
+    texts serde_json accepts."""
+    v = json.loads(text, object_pairs_hook=_Pairs, parse_constant=_bad_const)
+    if isinstance(v, _Pairs):
+        return ["o"] + [[k, to_sx(canon(_undup(x)))] for k, x in v]
+    return to_sx(canon(_undup(v)))
+
+
 # ------------------------------------------------------------------ document generator (text)
 
 WORDS = ["productName", "version", "identifier", "build", "app", "windows", "security", "bundle", "tauri",
@@ -607,7 +630,10 @@ def world_fs(w, reading):
     dirs = set()
     for p, text in w["files"].items():
         d = reading[text]
-        fs.append([norm(p), ["doc"] if d is None else ["doc", to_sx(d)]])
+        if d is not None and os.path.basename(p) != "tauri.conf.json":
+            fs.append([norm(p), ["doc", flat_sx(text)]])       # a standalone file: members as the text has them
+        else:
+            fs.append([norm(p), ["doc"] if d is None else ["doc", to_sx(d)]])
         dn = os.path.dirname(norm(p))
         if dn and dn != ".." and dn not in ("src-tauri", "projA", "projB", "empty"):
             dirs.add(dn)
@@ -1118,9 +1144,71 @@ def gen_flat_text(rng, valid_only=False):
         if rng.random() < 0.35:
             v = rng.choice(vs[:2] if valid_only else vs)
             items.append((k, v))
+    r = rng.random()
+    if r < 0.10 and items:
+        # a member given twice (a field: refused by the derived reader; an unknown key: ignored)
+        k, v = rng.choice(items)
+        items.append((k, v if rng.random() < 0.5 else rng.choice(FLAT_KEYS[k])))
     rng.shuffle(items)
     ws = make_ws(rng)
+    if 0.10 <= r < 0.18:
+        # a root array: read by position, missing trailing elements take the defaults
+        n = rng.choice([0, 1, 2, 3, 4, 6, 9, 12, 12, 13])
+        order = ["project_path", "output_path", "validation_library", "verbose", "visualize_deps", "include_private",
+                 "type_mappings", "exclude_patterns", "include_patterns", "default_parameter_case", "default_field_case", "force"]
+        els = [rng.choice(FLAT_KEYS[k][:2] if (valid_only or rng.random() < 0.8) else FLAT_KEYS[k]) for k in order] + ["1"]
+        return "[" + ws() + ("," + ws()).join(els[:n]) + ws() + "]"
     return "{" + ws() + ("," + ws()).join(esc_str(k, rng) + ws() + ":" + ws() + v for k, v in items) + ws() + "}"
+
+
+# small-scope list of the shapes of a standalone file that are not "an object with each key once"
+FLAT_SHAPE_TEXTS = [
+    '{"verbose":true,"verbose":false}', '{"verbose":true,"verbose":true}', '{"verbose":null,"verbose":true}',
+    '{"force":true,"output_path":"./outF","output_path":"./outG"}', '{"output_path":"./outF","force":true,"output_path":"./outF"}',
+    '{"project_path":"./projA","project_path":"./projB"}', '{"validation_library":"yup","validation_library":"zod"}',
+    '{"type_mappings":{"A":"x","A":"y"},"output_path":"./outF"}', '{"unknownKey":1,"unknownKey":2,"output_path":"./outF"}',
+    '{"a":1,"a":{"verbose":"x"},"force":true}', '{"projectPath":"./projA","projectPath":"./projB","validation_library":"zod"}',
+    '{"verbose":"yes","verbose":true}', '{"exclude_patterns":["a"],"include_patterns":["b"],"exclude_patterns":null}',
+    '[]', '["./projA"]', '["./projA","./outF"]', '["./projA","./outF","zod"]', '["./projA","./outF","zod",true]',
+    '["./projA","./outF","zod",true,true,null,null,null,null,"camelCase","snake_case",true]',
+    '["./projA","./outF","zod",false,null,null,{"A":"b"},["x"],null,"snake_case","camelCase",false]',
+    '["./projA","./outF","zod",true,null,null,null,null,null,"camelCase","snake_case",true,1]',
+    '["./src-tauri","./outF","none",null,null,null,null,null,null,"camelCase","snake_case",null,null]',
+    '[5]', '[null]', '["./projA",null]', '["./projA","./outF","yup"]', '["./nope","./outF","zod"]', '["./projA","./outF","zod","yes"]',
+    '[["./projA"]]', '[{"project_path":"./projA"}]', '["./projA","./outF","zod",null,null,null,[],null]',
+    '["./projA","./outF","zod",null,null,null,{"A":1}]', '["./projA","./outF","zod",null,null,null,null,[1]]',
+    '5', 'null', '"text"', 'true',
+]
+
+
+def file_shape_cases():
+    """Every shape x three flag sets through generate -c, and as typegen.json of the build script."""
+    genc, build = [], []
+    for t in FLAT_SHAPE_TEXTS:
+        for fl in (dict(NOFLAGS), dict(NOFLAGS, project="./projB"), dict(NOFLAGS, output="./outC", lib="none", force=True)):
+            genc.append({"world": {"src_tauri": "proj", "files": {"typegen.json": t}}, "flags": fl, "cfile": "typegen.json"})
+        build.append({"world": {"src_tauri": "proj", "files": {"typegen.json": t}}})
+    return genc, build
+
+
+def init_missing_dir_cases():
+    """init whose target cannot be created or found: its directory does not exist, a regular file is in the
+    way, the target is a directory - for standalone targets and for tauri.conf.json targets, with valid and
+    invalid settings, with and without --force, against warm output directories."""
+    initfile, init = [], []
+    warm = [["./gen", "zod", True], ["./src/generated", "none", False]]
+    for out in ("nodir/my.json", "./nodir/my.json", "nodir/deep/my.json", "notes.txt/my.json", "empty/sub/my.json",
+                "empty", "./empty", "loop/my.json", "dangling/my.json", "empty/my.json", "projA/my.json"):
+        for force in (False, True):
+            for over in ({}, {"lib": "foo"}, {"project": "./no-such-dir"}):
+                il = dict(IL0, generated="./gen", output=out, lib="zod")
+                il.update(over)
+                initfile.append({"world": {"src_tauri": "proj", "files": {}, "warm": [list(x) for x in warm]}, "iflags": il, "force": force})
+    for out in ("nodir/tauri.conf.json", "./nodir/deep/tauri.conf.json", "notes.txt/tauri.conf.json", "empty/tauri.conf.json"):
+        for over in ({}, {"lib": "foo"}, {"viz": True, "verbose": True}):
+            init.append({"world": {"src_tauri": "proj", "files": {}, "warm": [list(x) for x in warm]},
+                         "iflags": dict(IL0, generated="./gen", output=out, **over)})
+    return initfile, init
 
 
 def eval_flatload(cases, scratch):
@@ -1132,9 +1220,9 @@ def eval_flatload(cases, scratch):
     outs, sexps, idx = [], [], []
     for i, (c, o) in enumerate(zip(cases, obs)):
         d = reading[c["text"]]
-        if d is None or d[0] == "a" or "panic" in o or o.get("skipped"):
+        if d is None or "panic" in o or o.get("skipped"):
             continue
-        sexps.append(sx([to_sx(d), c["dirs"]]))
+        sexps.append(sx([flat_sx(c["text"]), c["dirs"]]))
         idx.append(i)
     res = vlib.run_runner("c19-flatload", sexps)
     for i, m in zip(idx, res):
@@ -1401,6 +1489,9 @@ def eval_initfile(cases):
         result, mdoc, ok = m[0], m[1], m[2] == "true"
         kind, eff, unchanged = result[0], result[1], result[2] == "true"
         model_doc = from_sx(mdoc[0]) if mdoc else None
+        if model_doc is not None and model_doc[0] == "o":
+            # an untouched standalone file keeps its repeated members in the model; as a value the last one counts
+            model_doc = ("o", tuple(sorted(dict(model_doc[1]).items(), key=lambda kv: kv[0])))
         corr_doc = model_doc == doc_after
         if obs[0] == "odd":
             corr, ok = False, False
@@ -1635,6 +1726,17 @@ def run(rep):
     rep.add("generate-c-random", eval_generatec(gcr))
     bcs = build_cases(rng, 150 if quick else 3000)
     rep.add("build-loader", eval_build(bcs))
+    # shapes of a standalone file outside "an object with each key once": repeated members, root arrays, scalars
+    with vlib.Sandbox("c19shape") as sb:
+        rep.add("file-shapes-read", eval_flatload([{"id": i, "text": t} for i, t in enumerate(FLAT_SHAPE_TEXTS)], sb.root), sample_count=1)
+    sgc, sbl = file_shape_cases()
+    rep.add("file-shapes-generate-c", eval_generatec(sgc), sample_count=1)
+    rep.add("file-shapes-build", eval_build(sbl), sample_count=1)
+    mf, mi = init_missing_dir_cases()
+    rep.add("init-missing-dir-file", eval_initfile(mf), sample_count=1)
+    rep.add("init-missing-dir", eval_init(mi), sample_count=1)
+    rep.extra["shape_distribution"] = {"file_shapes": len(FLAT_SHAPE_TEXTS), "generate_c": len(sgc), "build": len(sbl),
+                                       "init_missing_dir_file": len(mf), "init_missing_dir": len(mi)}
     rep.extra["standalone_distribution"] = {"file_roundtrip": len(fcases), "file_read": len(lcases),
                                             "generate_c_exhaustive": len(gce), "generate_c_random": len(gcr),
                                             "build_loader": len(bcs)}
@@ -1683,16 +1785,16 @@ def run_one(rep, st, c, name=None):
     elif st.startswith("file-roundtrip"):
         with vlib.Sandbox("c19flat") as sb:
             rep.add(name, eval_flat([c], sb.root))
-    elif st.startswith("file-read"):
+    elif st.startswith("file-read") or st.startswith("file-shapes-read"):
         with vlib.Sandbox("c19flat") as sb:
             rep.add(name, eval_flatload([c], sb.root))
-    elif "init-file" in st:
+    elif "init-file" in st or st == "init-missing-dir-file":
         rep.add(name, eval_initfile([c]))
     elif st in ("path-shapes-init", "warm-rejected-init") or st.startswith("init"):
         rep.add(name, eval_init([c]))
-    elif st.startswith("generate-c") or st in ("path-shapes-generate-c", "warm-rejected-generate-c"):
+    elif st.startswith("generate-c") or st in ("path-shapes-generate-c", "warm-rejected-generate-c", "file-shapes-generate-c"):
         rep.add(name, eval_generatec([c]))
-    elif st.startswith("build"):
+    elif st.startswith("build") or st == "file-shapes-build":
         rep.add(name, eval_build([c]))
     else:
         rep.add(name, eval_generate([c]))
